@@ -41,7 +41,7 @@ const LAST_N: u64 = 5;
 pub(crate) fn lc_msg<T: Into<packed::LightClientMessageUnion>>(content: T) -> Bytes {
     packed::LightClientMessage::new_builder().set(content).build().as_bytes()
 }
-fn sync_msg<T: Into<packed::SyncMessageUnion>>(content: T) -> Bytes {
+pub(crate) fn sync_msg<T: Into<packed::SyncMessageUnion>>(content: T) -> Bytes {
     packed::SyncMessage::new_builder().set(content).build().as_bytes()
 }
 
@@ -1865,7 +1865,7 @@ fn mutate_block(rng: &mut Rng, block: &BlockView, attack: Attack) -> Option<(pac
 /// a self-consistent block that is on no chain: the body of `block` with a made-up transaction
 /// (paying to a registered script) added / instead of the last one, the header rebuilt so that it
 /// commits to this body; the hashes of its made-up transactions
-fn forged_block(rng: &mut Rng, block: &BlockView) -> (BlockView, Vec<Byte32>, &'static str) {
+pub(crate) fn forged_block(rng: &mut Rng, block: &BlockView) -> (BlockView, Vec<Byte32>, &'static str) {
     let salt = rng.next() % 1000;
     let mut txs: Vec<TransactionView> = block.transactions();
     let note = if txs.len() >= 2 && rng.chance(1, 3) {
